@@ -366,7 +366,14 @@ func (b *versionedKVBackend) config(ctx context.Context, s logical.Storage) (*Co
 
 	b.globalConfig = conf
 
-	return conf, nil
+	// Hand out a copy here as well: callers (the config write) modify what
+	// they get before the change is persisted.
+	return &Configuration{
+		CasRequired:         conf.CasRequired,
+		MetadataCasRequired: conf.MetadataCasRequired,
+		MaxVersions:         conf.MaxVersions,
+		DeleteVersionAfter:  conf.DeleteVersionAfter,
+	}, nil
 }
 
 // getVersionKey uses the salt to generate the version key for a specific
